@@ -71,7 +71,100 @@ func (f *Frame) pureApp(st *State, fn *types.Func, recv *Val, args []Val) []Val 
 		}
 		out = append(out, Val{T: term, Ty: rt})
 	}
+	if ct := f.c.specs.Contracts[key]; ct != nil && len(ct.Ensures) > 0 && !f.c.pureAxDone[key] &&
+		(f.c.fnSrc == nil || funcKey(f.c.fnSrc.Obj) != key) {
+		if f.c.pureAxDone == nil {
+			f.c.pureAxDone = map[string]bool{}
+		}
+		f.c.pureAxDone[key] = true
+		f.pureAxiom(fn, ct)
+	}
 	return out
+}
+
+// pureAxiom adds the function axiom of a pure function with postconditions:
+//   forall receiver, arguments :: requires ==> ensures[results := the function's applications]
+// so that specs which apply the function to bound variables (frames over "every other key") can use
+// what the function's own contract establishes. The axiom is only as trustworthy as that contract:
+// proved when the function is under contract in the same run, assumed when it is marked trusted.
+// It is never used while verifying the function itself.
+func (f *Frame) pureAxiom(fn *types.Func, ct *Contract) {
+	key := funcKey(fn)
+	defer func() {
+		if r := recover(); r != nil {
+			if sf, ok := r.(specFail); ok {
+				f.c.note("function axiom of pure " + shortKey(key) + " not generated: " + sf.msg)
+				return
+			}
+			if u, ok := r.(unsupported); ok {
+				f.c.note("function axiom of pure " + shortKey(key) + " not generated: " + u.msg)
+				return
+			}
+			panic(r)
+		}
+	}()
+	sig := fn.Type().(*types.Signature)
+	if sig.Variadic() || sig.TypeParams() != nil && sig.TypeParams().Len() > 0 {
+		return
+	}
+	env := &SpecEnv{names: map[string]Val{}, pkg: fn.Pkg(), typeArgs: map[string]types.Type{}, macros: ct.macros()}
+	env.old = env
+	var binders, guards []string
+	bindq := func(name string, t types.Type) Val {
+		t = f.typ(t)
+		nm := fmt.Sprintf("%s!q%d", sanitize(name), f.c.nextQ())
+		binders = append(binders, fmt.Sprintf("(%s %s)", nm, f.c.sorts.SortOf(t)))
+		guards = append(guards, f.c.sorts.TypeInv(nm, t, 0)...)
+		return Val{T: nm, Ty: t}
+	}
+	var recv *Val
+	if r := sig.Recv(); r != nil {
+		name := r.Name()
+		if name == "" || name == "_" {
+			name = "self"
+		}
+		v := bindq(name, r.Type())
+		recv = &v
+		env.names[name] = v
+	}
+	var args []Val
+	for i := 0; i < sig.Params().Len(); i++ {
+		p := sig.Params().At(i)
+		name := p.Name()
+		if name == "" || name == "_" {
+			name = fmt.Sprintf("p%d", i)
+		}
+		v := bindq(name, p.Type())
+		args = append(args, v)
+		env.names[name] = v
+	}
+	rs := f.pureApp(nil, fn, recv, args)
+	var resInv []string
+	for i, r := range rs {
+		env.names[fmt.Sprintf("r%d", i)] = r
+		if n := sig.Results().At(i).Name(); n != "" && n != "_" {
+			env.names[n] = r
+		}
+		// results of a Go function always satisfy their type's range invariants
+		resInv = append(resInv, f.c.sorts.TypeInv(r.T, r.Ty, 0)...)
+	}
+	for _, r := range ct.Requires {
+		guards = append(guards, f.specBool(nil, r.Expr, env))
+	}
+	ens := resInv
+	for _, e := range ct.Ensures {
+		ens = append(ens, f.specBool(nil, e.Expr, env))
+	}
+	body := implies(conj(guards), conj(ens))
+	if len(binders) > 0 {
+		body = fmt.Sprintf("(forall (%s) %s)", strings.Join(binders, " "), body)
+	}
+	f.c.faxioms = append(f.c.faxioms, body)
+	how := "proved in this run if the function is under contract, otherwise assumed"
+	if ct.Trusted != "" {
+		how = "trusted"
+	}
+	f.c.note("function axiom: postconditions of pure " + shortKey(key) + " hold for every application (" + how + ")")
 }
 
 // callPure handles a code call to a pure function without further contract clauses.
